@@ -237,8 +237,9 @@ Cons(x, r) == Ok(<<x>> \o r.v, r.p)
 Expect(ts, p, isIt(_), K(_)) == IF isIt(Tok(ts, p)) THEN K(p + 1) ELSE Fail
 
 \* The magnitudes the model knows (lexeme -> magnitude): MagTable, set by the MC module.
-MagOfLex(s) == CHOOSE m \in MagTable : m.r = s \/ m.i = s
+\* (a lexeme outside the table stands for itself: recorded real programs hold arbitrary literals)
 KnownLex(s) == \E m \in MagTable : m.r = s \/ m.i = s
+MagOfLex(s) == IF KnownLex(s) THEN CHOOSE m \in MagTable : m.r = s \/ m.i = s ELSE Mag(s, s, FALSE, 0)
 
 \* parse_expression_identifier lower-cases the identifier before comparing with the reserved words
 ExprReservedTab ==
@@ -264,7 +265,7 @@ Prec(k) == IF k.c # "op" THEN 0
 RECURSIVE ReadE(_, _, _), LoopE(_, _, _, _)
 \* parse_immediate_value: a number token, optionally followed by the identifier `i`
 ReadImm(ts, p) ==
-  IF ~IsNum(Tok(ts, p)) \/ ~KnownLex(Tok(ts, p).s) THEN Fail
+  IF ~IsNum(Tok(ts, p)) THEN Fail
   ELSE IF Tok(ts, p + 1).c = "id" /\ Tok(ts, p + 1).s = "i"
        THEN Ok(Imag(FALSE, MagOfLex(Tok(ts, p).s)), p + 2)
        ELSE Ok(Real(FALSE, MagOfLex(Tok(ts, p).s)), p + 1)
@@ -845,6 +846,14 @@ HasPh(i) ==
     [] i.k \in {"Label", "Jump", "JumpWhen", "JumpUnless"} -> i.target.t = "ph"
     [] OTHER -> FALSE
 PlaceholderIffFails(i) == HasPh(i) <=> ToQuilFails(i)
+
+\* The two families for which the statement of C04 is known not to hold (known findings): a CALL immediate that
+\* prints with a sign or as a sum, and an ambiguous DELAY -- anywhere in the value, bodies included
+CallImmSigned(i) == i.k = "Call" /\ \E n \in DOMAIN i.args : i.args[n].t = "imm" /\ NeedsGroup(i.args[n].v)
+RECURSIVE KnownNotToRoundTrip(_)
+KnownNotToRoundTrip(i) ==
+  \/ CallImmSigned(i) \/ DelayAmbiguous(i)
+  \/ (i.k \in {"DefCal", "DefCalMeasure", "DefCircuit"} /\ \E n \in DOMAIN i.body : KnownNotToRoundTrip(i.body[n]))
 
 ---------------------------------------------------------------------------
 (* Programs: Program::add_instruction routes definitions into ordered tables (a later definition with the same
